@@ -913,7 +913,7 @@ func sameLeaves(a, b []LeafParam) bool {
 		return false
 	}
 	for i := range a {
-		if a[i].Key != b[i].Key || a[i].Opt != b[i].Opt || a[i].Soft != b[i].Soft || a[i].NamedSlice != b[i].NamedSlice {
+		if a[i].Key != b[i].Key || a[i].Opt != b[i].Opt || a[i].Soft != b[i].Soft || a[i].NamedSlice != b[i].NamedSlice || a[i].NamedAlt != b[i].NamedAlt {
 			return false
 		}
 	}
